@@ -69,7 +69,11 @@ def one(job):
         again = []
         for i in range(k):
             pretty = bool(job.get("pretty")) if i % 2 == 0 else not bool(job.get("pretty"))
-            x = r._survey.to_xml(validate=False, pretty_print=pretty, warnings=[])
+            try:
+                x = r._survey.to_xml(validate=False, pretty_print=pretty, warnings=[])
+            except Exception as e:  # noqa: BLE001  -- the first call succeeded on this very object
+                res["regen_error"] = f"call {i + 2}: {type(e).__name__}: {e}"[:300]
+                break
             if pretty == bool(job.get("pretty")):
                 again.append(x)
         res["regen"] = again
